@@ -131,3 +131,36 @@ Definition c11_encode_section (fs : fieldl) : option bytes :=
 (* qpack::decode_stateless with no limit on the section size (the limit is C10's subject) *)
 Definition c11_decode_section (b : bytes) : option fieldl :=
   match decode_stateless None b with Ok (fs, _) => Some fs | _ => None end.
+
+(* ---------- splitting the request stream into halves (connection.rs RequestStream::split over frame.rs
+   FrameStream::split over stream.rs BufRecvStream::split): what the RECEIVE half starts from.  Which fields are handed
+   over comes from Gen/GenSplit.v (regenerated from the source); the transport's own queue is not h3's to lose. ---------- *)
+From H3V Require Import Gen.GenSplit.
+Definition c03_split (s : c03_state) : c03_state :=
+  let rs := fst s in
+  let fs := rs_fs rs in
+  ({| rs_fs := {| st_buf := if split_keeps_buf then st_buf fs else [];
+                  st_eos := if split_keeps_eos then st_eos fs else false;
+                  st_memo := if split_keeps_decoder then st_memo fs else None;
+                  st_rem := if split_keeps_remaining then st_rem fs else 0;
+                  st_q := st_q fs |};
+      rs_trailers := if split_keeps_trailers then rs_trailers rs else None;
+      rs_reset := rs_reset rs |},
+   snd s).
+
+(* a history in which the application may also split the stream (None) at any point; the receive half goes on *)
+Fixpoint c03_run_split (r : role) (h : list (option hevent)) (s : c03_state) : list ritem * c03_state :=
+  match h with
+  | [] => ([], s)
+  | None :: t => c03_run_split r t (c03_split s)
+  | Some e :: t =>
+      let '(o, s1) := rx_run c03_state c03_arrive c03_fin (c03_poll r) [e] s in
+      let '(o2, s2) := c03_run_split r t s1 in
+      (o ++ o2, s2)
+  end.
+Fixpoint without_splits (h : list (option hevent)) : list hevent :=
+  match h with
+  | [] => []
+  | None :: t => without_splits t
+  | Some e :: t => e :: without_splits t
+  end.
